@@ -26,4 +26,23 @@ PROPS = {
             "under a fired load/parse/compile fault the injected error itself must be returned; under an is_valid flap either that import or a reachable cycle may be reported",
         ],
     },
+    "C06": {
+        "level": "exploration",
+        "runs": {"quick": 400, "thorough": 30000},
+        "selftest_runs": 300,
+        "needs_real": True,
+        "rule": (
+            "each run draws one accepted multi-module program (generator biased towards every unordered-map site: examples maps with 2-6 entries, "
+            "several modules, @references, ranges, multi-parameter functions) and compiles it to YAML under 6 (thorough: 8) in-process environments "
+            "drawn from {fresh thread with a chosen std hash seed, thread reused after 1-5 compilations of other programs, second compiler thread alive}; "
+            "every 8th run additionally executes the real oal-cli 4 (thorough: 6) times in fresh processes under LD_PRELOAD-pinned (hash seed, wall clock) "
+            "pairs with ASLR off plus unpinned runs. Oracle: byte equality of all documents of a run (per tier). evaluations = compilations executed. "
+            "non-trivial = accepted program with a multi-entry examples map, several modules or an @reference; distinct = distinct (sources, output digests)."
+        ),
+        "real": ["whole pipeline: oal_syntax::parse, module::load, compile, eval, oal_openapi::Builder, serde_yaml output", "real oal-cli binary (process tier)"],
+        "stub": ["libc getrandom (in-process symbol / LD_PRELOAD)", "CLOCK_REALTIME (LD_PRELOAD)", "ASLR (setarch -R)", "in-memory Loader for the in-process tier"],
+        "assumptions": COMMON_ASSUME + [
+            "in-process runs cannot pin address-space layout (foldhash inside string-interner mixes it in, lookup-only today); the unpinned process runs are the catch-all",
+        ],
+    },
 }
